@@ -156,9 +156,9 @@ func drawHeaders(c *core.Ctx, label string) []HV {
 			hs = append(hs, HV{name, visible(c, label+".val", 0, 30)})
 		}
 	}
-	if c.Chance(label+".many", 1, 20) {
+	if c.Chance(label+".many", 1, 120) {
 		// header maps around the CBOR head-size steps (23/24, 255/256 entries)
-		for i, m := 0, c.PickInt(label+".manyN", 20, 21, 22, 23, 24, 250, 253, 254); i < m; i++ {
+		for i, m := 0, c.PickInt(label+".manyN", 20, 21, 22, 23, 24, 22, 23, 253); i < m; i++ {
 			hs = append(hs, HV{fmt.Sprintf("X-M%03d", i), "m"})
 		}
 		c.Probe("header map with 23-257 fields")
@@ -178,10 +178,7 @@ func DrawResp(c *core.Ctx, label string, uniq int) LResp {
 	if n > 1000 && !c.Chance(label+".big", 1, 3) {
 		n = c.Int(label+".bodyLen2", 0, 300)
 	}
-	if c.Chance(label+".huge", 1, 3000) {
-		n = c.PickInt(label+".hugeLen", 1<<20, 1<<20+1, 1<<21+5) // past pre-allocation limits
-		c.Probe("body of 1 MiB and more")
-	}
+	// (bodies of a MiB and more: see bundle/TestScale)
 	// every body is unique within a run: a 6-byte tag + pattern
 	tag := fmt.Sprintf("#%05d", uniq)
 	body := make([]byte, n)
